@@ -649,41 +649,27 @@ func (m *collection) get(key []byte, readOptions ReadOptions) ([]byte, error) {
 	verifTrace("coll.get", m)
 	m.m.Unlock()
 
-	var val []byte
-	var err error
-
-	// Avoid going to the lower-level snapshot for the
-	// stackDirtyTop/Mid/Base/Clean Get()s since their lower level
-	// snapshots may be modified concurrently by
-	// collection_merger/persister.
-	readOptionsSLL := readOptions
-	readOptionsSLL.SkipLowerLevel = true
-
 	// Look for the key-value in the collection's segment stacks
 	// starting with the latest (stackDirtyTop), followed by
 	// stackDirtyMid, stackDirtyBase, stackClean, and if still not
-	// found look for it in the lowerLevelSnapshot.
-	if stackDirtyTop != nil {
-		val, err = stackDirtyTop.Get(key, readOptionsSLL)
+	// found look for it in the lowerLevelSnapshot.  The segments are
+	// chained into one stack so that a deletion (or a merge operand)
+	// in a newer stack correctly shadows (or is applied to) an entry
+	// of the same key in an older stack, exactly as a Snapshot would.
+	// The lower level snapshot ref'ed above is used instead of the
+	// stacks' own, which may be modified concurrently by
+	// collection_merger/persister.
+	ss := &segmentStack{options: m.options, lowerLevelSnapshot: lowerLevelSnapshot}
+	for _, stack := range []*segmentStack{
+		stackClean, stackDirtyBase, stackDirtyMid, stackDirtyTop} {
+		if stack != nil {
+			ss.a = append(ss.a, stack.a...)
+		}
 	}
 
-	if val == nil && err == nil && stackDirtyMid != nil {
-		val, err = stackDirtyMid.Get(key, readOptionsSLL)
-	}
-
-	if val == nil && err == nil && stackDirtyBase != nil {
-		val, err = stackDirtyBase.Get(key, readOptionsSLL)
-	}
-
-	if val == nil && err == nil && stackClean != nil {
-		val, err = stackClean.Get(key, readOptionsSLL)
-	}
+	val, err := ss.Get(key, readOptions)
 
 	if lowerLevelSnapshot != nil {
-		if val == nil && err == nil {
-			val, err = lowerLevelSnapshot.Get(key, readOptions)
-		}
-
 		lowerLevelSnapshot.decRef()
 	}
 
